@@ -7,17 +7,21 @@
    a one-element parenthesis is EParen; an inner join's right side is a table factor; …).
 
    Full property (properties.jsonl): for EVERY statement sqlparser.Parse accepts, Parse(String(Parse(s))) is an equivalent tree.
-   What is proved below is that statement for the model fragment:
-     SELECT [DISTINCT] items FROM table-expressions [WHERE] [GROUP BY] [TRIGGER …] [ORDER BY] [LIMIT [offset,] n];
+   What is proved below is that statement for the model fragment (widened in the deepening round):
+     select_statement := SELECT [DISTINCT] items FROM table-expressions [WHERE] [GROUP BY] [HAVING] [TRIGGER …] [ORDER BY]
+                         [LIMIT [offset,] n]  |  WITH name AS (select_statement), … select_statement   (nested, also in every subquery);
      items: *, t.*, expr [AS alias], expr->* ; tables: [db.]name [AS a], (subquery) AS a, (table list),
-     f(arg => expr | TABLE(table-ref) | DESCRIPTOR([t.]col), …) AS a, [LOOKUP|STREAM] JOIN … [ON e],
+     f(arg => expr | TABLE(table-ref) | DESCRIPTOR([t.]col), …) AS a, [LOOKUP|STREAM] [INNER|CROSS] JOIN … [ON e],
      LEFT|RIGHT|OUTER JOIN factor ON e; triggers COUNTING e, ON WATERMARK, ON END OF STREAM, AFTER DELAY e;
-     expressions: OR AND NOT, = < > <= >= != <=> [NOT] LIKE, [NOT] IN (list | subquery), IS [NOT] NULL|TRUE|FALSE,
-     + - * /, unary minus, literals, [t.]column, f(args) f(DISTINCT args) f( * ), INTERVAL e unit, e::type / convert(e, type)
-     with types name, [] and {}, e->field, tuples, parentheses, subqueries.
-   Not covered by the theorem (only by the implementation oracle of the engine): WITH/UNION, HAVING, BETWEEN, CASE, EXISTS,
-   regular-expression operators, ESCAPE, a[i], bit operators, db.t.c column names, USING, INNER/CROSS/NATURAL/STRAIGHT joins,
-   an outer join whose right side is itself an unparenthesised join, comments, keywords used as identifiers or type names. *)
+     expressions: OR AND NOT, = < > <= >= != <=> [NOT] LIKE, [NOT] REGEXP, ~ ~* !~ !~*, [NOT] IN (list | subquery),
+     [NOT] BETWEEN a AND b, EXISTS (subquery), IS [NOT] NULL|TRUE|FALSE, + - * /, unary minus,
+     literals (string, integer, float incl. exponents, x'..', b'..', 0x.., bind variables, TRUE FALSE NULL), [t.]column,
+     f(args) f(DISTINCT args) f( * ), CASE [e] WHEN c THEN v … [ELSE e] END, INTERVAL e unit, e::type / convert(e, type)
+     with types name, [] and {}, e->field, e[i], tuples, parentheses, subqueries.
+   Not covered by the theorem (only by the implementation oracle of the engine): UNION, ESCAPE, bit operators, DIV/MOD/%,
+   db.t.c column names, USING, NATURAL/STRAIGHT joins, an outer join whose right side is itself an unparenthesised join,
+   CAST(… AS …) as written (it prints as convert), MATCH/GROUP_CONCAT/SUBSTR forms, comments, keywords used as identifiers,
+   type names or interval units, unary + ~ !, @variables, other statement kinds. *)
 From Octo Require Import Sql SqlProofs.
 
 (* For every tree of the fragment that the parser can return, parsing what the printer prints gives back exactly that tree
@@ -36,6 +40,10 @@ Print Assumptions C30_grammar_tables_match.
    an alias, LEFT JOIN on a subquery, IS NOT NULL, NOT IN, all four triggers, ORDER BY … DESC / NULL, LIMIT o, n is in the image. *)
 Example C30_hypotheses_satisfiable : parser_image example_stmt /\ parse (print example_stmt) = Ok example_stmt.
 Proof. exact (conj example_in_image example_roundtrips). Qed.
+(* … and one with nested WITH, HAVING, CASE (both forms), NOT BETWEEN, NOT EXISTS, e->f[i], ~, NOT REGEXP, INNER-style join,
+   hex / bit / 0x / bind-variable literals. *)
+Example C30_hypotheses_satisfiable_2 : parser_image example_stmt2 /\ parse (print example_stmt2) = Ok example_stmt2.
+Proof. exact (conj example2_in_image example2_roundtrips). Qed.
 
 (* The pinned tree (before the fix: commits) violates the property; one witness per defective template. *)
 (* Select.Format had no verb for node.Trigger: the TRIGGER clause was dropped. *)
